@@ -85,15 +85,18 @@ theorem lessOrEqual_mono (t : List ID) (h : Desc t) (id : ID) (lo hi : Nat) :
 def probe (t : List ID) (left : Nat) (id : ID) : Nat :=
   binSearchInRange left (t.length - 1) (fun l => lessOrEqual t l id)
 
+/-- `if i == 0 || !seq.Less(id, ids[i-1]) { left = 1 }`: the carried border survives only for a descending step -/
+def nextLeft (prev : Option ID) (left : Nat) (id : ID) : Nat :=
+  match prev with
+  | none => 1
+  | some p => if id.lt p then left else 1
+
 /-- `findLIDs` as written.  `prev` is `ids[i-1]` (`none` for `i = 0`), `left` the carried search border.
 `none` = the equality probe `GetMID(lid)` indexes past the table (run-time panic). -/
 def findLIDsGo (t : List ID) : Option ID → Nat → List ID → Option (List Nat)
   | _, _, [] => some []
   | prev, left, id :: rest =>
-    let left' := match prev with
-      | none => 1
-      | some p => if id.lt p then left else 1
-    let lid := probe t left' id
+    let lid := probe t (nextLeft prev left id) id
     if h : lid < t.length then
       let r := if t[lid] = id then lid else 0
       (findLIDsGo t (some id) lid rest).map (r :: ·)
@@ -105,10 +108,7 @@ def findLIDs (t : List ID) (ids : List ID) : Option (List Nat) := findLIDsGo t n
 def findLIDsFixedGo (t : List ID) : Option ID → Nat → List ID → Option (List Nat)
   | _, _, [] => some []
   | prev, left, id :: rest =>
-    let left' := match prev with
-      | none => 1
-      | some p => if id.lt p then left else 1
-    let lid := probe t left' id
+    let lid := probe t (nextLeft prev left id) id
     if lid ≤ t.length - 1 then
       if h : lid < t.length then
         let r := if t[lid] = id then lid else 0
@@ -165,20 +165,14 @@ def Above (t : List ID) (left : Nat) (id : ID) : Prop :=
 def LoopInv (t : List ID) (prev : Option ID) (left : Nat) : Prop :=
   1 ≤ left ∧ left ≤ t.length ∧ ∀ p, prev = some p → Above t left p
 
-def nextLeft (prev : Option ID) (left : Nat) (id : ID) : Nat :=
-  match prev with
-  | none => 1
-  | some p => if id.lt p then left else 1
-
 theorem nextLeft_inv (t : List ID) (hne : 2 ≤ t.length) (prev : Option ID) (left : Nat) (id : ID)
     (h : LoopInv t prev left) :
     1 ≤ nextLeft prev left id ∧ nextLeft prev left id ≤ t.length ∧ Above t (nextLeft prev left id) id := by
-  unfold nextLeft
   cases prev with
-  | none => exact ⟨by omega, by omega, fun k h1 h2 => by omega⟩
+  | none => exact ⟨by simp [nextLeft], by simp [nextLeft]; omega, fun k h1 h2 => by simp [nextLeft] at h2; omega⟩
   | some p =>
     by_cases hlt : id.lt p = true
-    · simp only [hlt, if_true]
+    · simp only [nextLeft, hlt, if_true]
       refine ⟨h.1, h.2.1, fun k h1 h2 => ?_⟩
       have := h.2.2 p rfl k h1 h2
       unfold lessOrEqual at *
@@ -187,8 +181,8 @@ theorem nextLeft_inv (t : List ID) (hne : 2 ≤ t.length) (prev : Option ID) (le
         rw [ID.not_le_iff_lt] at this ⊢
         exact ID.lt_trans hlt this
       · rw [dif_neg hk] at this; cases this
-    · simp only [hlt]
-      exact ⟨by omega, by omega, fun k h1 h2 => by omega⟩
+    · simp only [nextLeft, hlt]
+      exact ⟨by simp, by simp; omega, fun k h1 h2 => by simp at h2; omega⟩
 
 /-- one iteration: the binary search lands on the first LID >= 1 whose ID is <= `id` (or on `IDsTotal`) -/
 theorem probe_step (t : List ID) (hd : Desc t) (hne : 2 ≤ t.length) (left : Nat) (id : ID)
@@ -266,7 +260,7 @@ theorem findLIDsFixedGo_spec (t : List ID) (hd : Desc t) (hne : 2 ≤ t.length) 
       dsimp only
       rw [ih', hr]; rfl
     · rw [dif_neg hl] at hr
-      rw [if_neg (by omega), ih', ← hr]; rfl
+      rw [if_neg (by omega), ih']; simp [← hr]
 
 theorem findLIDsFixed_spec (t : List ID) (hd : Desc t) (hne : 2 ≤ t.length) (ids : List ID) :
     findLIDsFixed t ids = some (ids.map (lidOf t)) :=
